@@ -21,7 +21,7 @@
 import RdfModel.Props.C10Defs
 import RdfModel.Spec.GraphIso
 import RdfModel.Proofs.C10Write
-import RdfModel.Proofs.C10EncMain
+import RdfModel.Proofs.C10EncStruct
 namespace RdfModel.C10
 open RdfModel RdfModel.Desc RdfModel.JL RdfModel.JLEnc
 
@@ -263,6 +263,28 @@ def encCert_of_natural [DecidableEq β] : Prop :=
 theorem encCert_of_natural_holds [DecidableEq β] : encCert_of_natural (β := β) :=
   fun mode11 base cfg d ord ord2 hne hord hord2 hwf hnn hctx hloc hst =>
     Proofs.C10.encCert_holds mode11 base cfg d ord ord2 hne hord hord2 hwf hnn hctx hloc hst
+
+/-- The forest of the exported resources exists for every configuration, every dataset and every pair of
+    iteration orders: the tagged export terminates within the fuel `|d|+1` (C17's termination theorem for the
+    repaired export, transferred to the tagged copy `exportT`). -/
+theorem encoder_forest_exists [DecidableEq β] (cfg : Cfg β) (d : List (DQuad β)) (ord ord2 : List (Term β)) :
+    (encForest cfg d ord ord2).isSome :=
+  Proofs.C10.encForest_isSome cfg d ord ord2
+
+/-- **The document is read as the exported forest — WITHOUT `structOK`.** Under the hypotheses of
+    `encCert_of_natural` except `structOK`, the encoder produces a document, the forest exists, and the
+    fragment semantics reads the document as exactly `denForest` of that forest (both processing modes,
+    every document base). What `structOK` (= `forestOK F d`) adds is only that this forest is the dataset
+    up to blank node renaming — a statement about the resource-list export alone (C17), still a hypothesis
+    of `encoder_roundtrip_natural2_partial`. -/
+theorem encoder_document_read [DecidableEq β] (mode11 : Bool) (base : Option Str) (cfg : Cfg β)
+    (d : List (DQuad β)) (ord ord2 : List (Term β))
+    (hne : ∀ b, cfg.label b ≠ []) (hord : ∀ s ∈ ord, s ∈ defaultOrd d) (hord2 : ∀ s ∈ ord2, s ∈ defaultOrd d)
+    (hwf : WFDataset d) (hnn : noNativeTyped d = true) (hctx : ctxOK cfg d ord ord2 = true)
+    (hloc : locOK cfg d ord ord2 = true) :
+    ∃ doc F, encode cfg d ord ord2 = some doc ∧ encForest cfg d ord ord2 = some F ∧
+      toRdf mode11 base doc = some (denForest cfg.label F (encStart F)).1 :=
+  Proofs.C10.doc_reads_forest mode11 base cfg d ord ord2 hne hord hord2 hwf hnn hctx hloc
 
 /-- **Encoder round trip under natural hypotheses (partial).** For every configuration (base, prefixes,
     buffering, injective never-empty labels), every well-formed dataset without natively written datatypes and
